@@ -77,7 +77,8 @@ class DeviceBase(Entity):
 
     def __str__(self) -> str:
         if self._STATE_ATTR:
-            return f"{self.id} ({self._SLUG}): {getattr(self, self._STATE_ATTR)}"
+            state = getattr(self, self._STATE_ATTR, None)  # e.g. a CTL has no heat_demand
+            return f"{self.id} ({self._SLUG}): {state}"
         return f"{self.id} ({self._SLUG})"
 
     def __lt__(self, other: object) -> bool:
